@@ -194,7 +194,18 @@ func runKA(sc *KAScenario) *KAResult {
 			interval, timeout = 20*time.Millisecond, 400*time.Millisecond
 		}
 	}
-	err := mqtt.KeepAlive(ctx, cli, interval, timeout)
+	// every script ends the loop (a failing / unanswered ping, or a cancellation): a loop that is still running long after
+	// the script is over is a result ("no-return"), not a hung driver
+	kret := make(chan error, 1)
+	go func() { kret <- mqtt.KeepAlive(ctx, cli, interval, timeout) }()
+	var err error
+	select {
+	case err = <-kret:
+	case <-time.After(time.Duration(len(sc.Script)+4)*(interval+timeout) + 3*time.Second):
+		cli.mu.Lock()
+		defer cli.mu.Unlock()
+		return &KAResult{ID: sc.ID, Pings: cli.pings, Res: "no-return"}
+	}
 	res := "nil"
 	switch {
 	case errors.Is(err, mqtt.ErrPingTimeout):
